@@ -246,6 +246,9 @@ func openTagSpansLines(n templang.Node, loose bool) bool {
 	return loose && (n.K == "el" || n.K == "void") && len(n.Attrs) > 0
 }
 
+// curOdd is the feature mask of the odd spelling while a failure of that spelling is being attributed (0 otherwise).
+var curOdd int
+
 // spansLines reports whether an element's children are not all on the open tag's line (IndentChildren).
 func spansLines(n templang.Node, loose bool) bool {
 	if len(n.Kids) == 0 {
@@ -261,6 +264,10 @@ func spansLines(n templang.Node, loose bool) bool {
 		switch k.K {
 		case "callb", "if", "for", "switch", "gcomment", "gocodeml":
 			return true // always written on several lines (as in FmtLayout.tla's SpansLines)
+		}
+		// the odd spelling: Go code that gofmt splits into lines, start tags whose attribute expression spans lines
+		if curOdd != 0 && (k.K == "gocodei" && curOdd&templang.OddGoCodeTwo != 0 || templang.OddStartTagSpansLines(k, curOdd)) {
+			return true
 		}
 		for _, a := range k.Attrs {
 			if a.A == "cond" {
@@ -368,6 +375,10 @@ func failsSrc(s string, kind string) bool {
 }
 
 func attribute(prog []templang.Node, v templang.Variant, kind string) string {
+	curOdd = 0
+	if v == 3 {
+		curOdd = templang.OddAll
+	}
 	{
 		// a call followed by something on its line: when the failure needs that adjacency, the adjacency is the
 		// root cause, whatever else (an unusual spelling of the neighbour) is needed as well
